@@ -22,7 +22,7 @@ def gen_call(rng):
         return dict(kind="chain", problem=pnr_gen.gen_problem(rng), placer=rng.choice(PLACERS),
                     seed=rng.randint(0, 10 ** 6), target=rng.choice([None, None, 0, 2, 1024]),
                     radius=rng.choice([0, 1, 20]))
-    if k < 0.7:
+    if k < 0.68:
         n = rng.randint(1, 8)
         table = []
         for _ in range(n):
@@ -30,22 +30,26 @@ def gen_call(rng):
             table.append([[rng.randint(0, 5)] if rng.random() < 0.8 else [rng.randint(0, 5), rng.randint(6, 23)],
                           rng.randint(0, 15) & mask, mask])
         return dict(kind="covering", table=table, target=rng.choice([None, 0, 3]))
-    if k < 0.82:
+    if k < 0.78:
         nf = rng.randint(1, 4)
         fields = [["f%d" % i, rng.choice([None, 1, 2, 4]), None, rng.choice([None, "t", "u v"])] for i in range(nf)]
         values = [[f[0], rng.randint(0, (1 << (f[1] or 3)) - 1)] for f in fields]
         return dict(kind="bitfield", length=rng.choice([8, 16, 32]), fields=fields, values=values)
-    if k < 0.92:
+    if k < 0.86:
         return dict(kind="controller", updates=[{"x": rng.randint(0, 7)}, {"app_id": rng.randint(1, 255)}][:rng.randint(0, 2)],
                     x=rng.randint(0, 7), y=rng.randint(0, 7), p=rng.randint(1, 17), **{"raise": rng.random() < 0.5},
                     bmp={"board": rng.randint(1, 23), "frame": rng.randint(0, 3)})
+    if k < 0.96:
+        return dict(kind="boot", preset=rng.choice([None, None, "spin3_boot_options", "spin5_boot_options"]),
+                    options=rng.choice([{}, {}, {"hw_ver": 2}, {"led0": 0x1234}]),
+                    overrides=rng.choice([None, None, {"hw_ver": 4}, {}]))
     return dict(kind="machine", cores=rng.randint(1, 17))
 
 
 def run(chk, args):
     chk.assumptions += ["history independence is checked for the probe kinds generated here (P&R chain through all 7 "
                         "placers, ordered_covering with its default alias argument, BitField definitions, controller "
-                        "construction, Machine defaults); CPython-level aliasing outside the inventoried carriers is "
+                        "construction, Machine defaults, boot); CPython-level aliasing outside the inventoried carriers is "
                         "covered only by this differential run",
                         "`same seeded random generator`: the driver reseeds the global `random` module and passes a fresh "
                         "random.Random(seed) to the placers before each call in both runs"]
